@@ -210,9 +210,14 @@ func c08(r *core.Run) []*core.Violation {
 	r.Stats.ProbeN("leader_txs", nTx)
 	var viols []*core.Violation
 	kinds := []string{"env", "restart", "queries", "plain"}
-	reps := 1
+	reps := 2
 	if r.Tier == "thorough" {
 		reps = 3
+	}
+	if r.Tape.IsReplay() {
+		// a divergence caused by Go's randomised map iteration only shows with some probability per execution:
+		// a replay repeats every follower often enough to meet it again
+		reps = 6
 	}
 	storm := queryStorm(w)
 	for _, kind := range kinds {
